@@ -259,5 +259,50 @@ theorem runGuards_pass_first_conn {cfg : Cfg} {w : World} {s : SState} {arg : PP
   · exact h2
   · rw [h2] at h; simp at h
 
+/-! ### `int()` on what `str.isdecimal()` lets through -/
+
+/-- every code point of a decimal range is one of the ten digits of some script (generated tables) -/
+def rangeCovered (r : Nat × Nat) : Bool :=
+  (List.range' r.1 (r.2 - r.1 + 1)).all (fun n => Generated.pyDecimalZeros.any (fun z => z ≤ n && n ≤ z + 9))
+
+theorem decimal_ranges_covered : Generated.pyDecimalRanges.all rangeCovered = true := by decide +kernel
+
+theorem decimal_has_value (c : Char) (h : isDecimalCh c = true) : (decimalValue? c).isSome = true := by
+  unfold isDecimalCh inRanges at h
+  rw [List.any_eq_true] at h
+  obtain ⟨r, hr, hin⟩ := h
+  have hc := List.all_eq_true.mp decimal_ranges_covered r hr
+  unfold rangeCovered at hc
+  simp only [Bool.and_eq_true, decide_eq_true_eq] at hin
+  have hmem : c.toNat ∈ List.range' r.1 (r.2 - r.1 + 1) := by
+    rw [List.mem_range'_1]; omega
+  have := List.all_eq_true.mp hc c.toNat hmem
+  rw [List.any_eq_true] at this
+  obtain ⟨z, hz, hzc⟩ := this
+  unfold decimalValue?
+  cases hf : Generated.pyDecimalZeros.find? (fun z => z ≤ c.toNat && c.toNat ≤ z + 9) with
+  | some z' => rfl
+  | none =>
+    have := List.find?_eq_none.mp hf z hz
+    simp_all
+
+theorem intOfDigits_foldl_some (s : Str) (acc : Nat) (h : s.all isDecimalCh = true) :
+    ∃ n, s.foldl digitStep (some acc) = some n := by
+  induction s generalizing acc with
+  | nil => exact ⟨acc, rfl⟩
+  | cons c t ih =>
+    simp only [List.all_cons, Bool.and_eq_true] at h
+    obtain ⟨d, hd⟩ := Option.isSome_iff_exists.mp (decimal_has_value c h.1)
+    simp only [List.foldl_cons, digitStep, hd]
+    exact ih _ h.2
+
+/-- `int(rest)` cannot fail on a string that `rest.isdecimal()` accepted -/
+theorem int_of_decimal_total (s : Str) (h : isDecimal s = true) : (intOfDigits? s).isSome = true := by
+  unfold isDecimal at h
+  simp only [Bool.and_eq_true] at h
+  obtain ⟨n, hn⟩ := intOfDigits_foldl_some s 0 h.2
+  unfold intOfDigits?
+  rw [hn]; rfl
+
 end Session
 end Model
